@@ -267,8 +267,3 @@ pub fn mode_format(j: &J) -> String {
   format!("(fmt {} {} {} {} {} {} (feat {}) (delta {}) (diff {} {} {}) {})", qstr(&text1), reparse, same, idem, d1, d2, feat, delta,
     qstr(&diff.0), qstr(&diff.1), qstr(&diff.2), qstr(&text2))
 }
-
-// debugging aid (mode `format-json`): the position-free JSON of the parse tree
-pub fn dbg_json(src: &str) -> String {
-  match parser::parse(src) { Ok(t) => tree_json(&t).to_string(), Err(_) => "perr".to_string() }
-}
